@@ -8,7 +8,7 @@ CFG = "SPECIFICATION TSpec\nCHECK_DEADLOCK FALSE\n" + "".join("INVARIANT %s\n" %
       "PROPERTY WellNested\nPROPERTY DispatchedWasFront\n"
 
 
-def validate(traces, workers="auto", timeout=1800):
+def validate(traces, workers="auto", timeout=1800, focus=""):
   """traces: list of {"tid": int, "chart": {...}, "ev": [...]}.
   Returns (verdicts, tlcresult); verdicts: tid -> {"done": n} | {"at":, "bad": [...], ...} | {"stuck": True}"""
   wd = common.work_dir()
@@ -16,7 +16,7 @@ def validate(traces, workers="auto", timeout=1800):
   with open(path, "w") as f:
     for t in traces:
       f.write(json.dumps(t) + "\n")
-  r = tlc.run("HsmTrace.tla", CFG, workers=workers, env={"TRACE_FILE": path}, timeout=timeout)
+  r = tlc.run("HsmTrace.tla", CFG, workers=workers, env={"TRACE_FILE": path, "FOCUS": focus}, timeout=timeout)
   os.unlink(path)
   verdicts = {}
   for p in r.printed:
